@@ -76,8 +76,13 @@ def main():
     t0 = time.time()
     prop = importlib.import_module("prop_" + pid)
     open_findings, fixed = parse_known_findings()
-    evidence_path = os.path.join(VERIF, "evidence", pid + ".json")
-    replay_dir = os.path.join(VERIF, "replays")
+    # evidence/ and replays/ describe /repo itself; a run against a scratch worktree (VERIF_REPO, used to evaluate
+    # seeded changes) writes to a scratch directory instead so that committed evidence is never overwritten
+    scratch = os.environ.get("VERIF_OUT") or (None if os.path.realpath(REPO) == "/repo" else
+                                               os.path.join("/tmp", "verif_out_" + os.path.basename(os.path.realpath(REPO))))
+    evidence_path = os.path.join(scratch or VERIF, "evidence", pid + ".json")
+    replay_dir = os.path.join(scratch or VERIF, "replays")
+    os.makedirs(os.path.dirname(evidence_path), exist_ok=True)
     os.makedirs(replay_dir, exist_ok=True)
 
     # ---- 1-4 build
